@@ -22,6 +22,7 @@ import (
 
 	"github.com/tsawler/tabula/core"
 	"github.com/tsawler/tabula/reader"
+	"github.com/tsawler/tabula/resolver"
 )
 
 func init() { handlers["c04"] = c04 }
@@ -301,6 +302,9 @@ func c04Case(i int, raw []byte) Result {
 			x.Nontrivial, x.Key, x.Evals = res.Nontrivial, res.Key, res.Evals
 			return x
 		}
+		// the same lookups also go through ONE resolver.ObjectResolver over this reader (plain Resolve / ResolveDeep, which
+		// keep the resolver's state between calls): its answers are the reader's
+		rs := resolver.NewResolver(rd)
 		var ev []Event
 		logIt := si%7 == 0 // a sample of the sequences goes to the trace
 		if logIt {
@@ -340,12 +344,23 @@ func c04Case(i int, raw []byte) Result {
 						defer func() { recover() }() // a deep resolution may refuse freed objects; only its after-effects are judged here
 						rd.ResolveDeep(core.IndirectRef{Number: c.idxNum, Generation: 0})
 					}()
+					func() {
+						defer func() { recover() }()
+						rs.ResolveDeep(core.IndirectRef{Number: c.idxNum, Generation: 0})
+					}()
 					continue
 				}
 				o, gerr := rd.GetObject(c.idxNum)
 				got := "error"
 				if gerr == nil {
 					got = xShowArray(o)
+				}
+				if o2, e2 := rs.Resolve(core.IndirectRef{Number: c.idxNum, Generation: 0}); gerr == nil && (e2 != nil || xShowArray(o2) != got) {
+					rd.Close()
+					x := fail("lookup", "C04:lookup:resolver", fmt.Sprintf("the index array (object %d) in sequence %v: the reader answers %s, a resolver.ObjectResolver over the same reader, used for the whole sequence, answers %v / %v (history %s, options %s; %d = deep resolution of that array)",
+						c.idxNum, seq, got, o2, e2, mustJSON(c.Revs), mustJSON(c.Opt), deepOp), map[string]interface{}{"case": json.RawMessage(raw), "sequence": seq})
+					x.Nontrivial, x.Key, x.Evals = res.Nontrivial, res.Key, res.Evals
+					return x
 				}
 				if got != wantIdx {
 					rd.Close()
@@ -358,6 +373,13 @@ func c04Case(i int, raw []byte) Result {
 			}
 			o, gerr := rd.GetObject(xNum(&c, k))
 			got := xProject(o, gerr, bl)
+			if o2, e2 := rs.Resolve(core.IndirectRef{Number: xNum(&c, k), Generation: 0}); xProject(o2, e2, bl) != got {
+				rd.Close()
+				x := fail("lookup", "C04:lookup:resolver", fmt.Sprintf("object %d in sequence %v: the reader answers %d, a resolver.ObjectResolver over the same reader, used for the whole sequence, answers %d (%v) (history %s, options %s; %d = deep resolution of the index array)",
+					k, seq, got, xProject(o2, e2, bl), e2, mustJSON(c.Revs), mustJSON(c.Opt), deepOp), map[string]interface{}{"case": json.RawMessage(raw), "observed": xProject(o2, e2, bl), "sequence": seq})
+				x.Nontrivial, x.Key, x.Evals = res.Nontrivial, res.Key, res.Evals
+				return x
+			}
 			want := bl
 			if k <= n {
 				want = c.Newest[k-1]
